@@ -7,6 +7,7 @@ import (
 	"fmt"
 	"os"
 	"path/filepath"
+	"regexp"
 	"sort"
 	"strings"
 )
@@ -171,4 +172,25 @@ func repoDir() string {
 		return v
 	}
 	return "/repo"
+}
+
+var reEmptyScopes = regexp.MustCompile(`("k[123]"): \[\]`)
+
+// NullScopes rewrites, in the root file, every other empty scopes list of a security requirement as JSON null
+// (both spell "no scope"; the abstract document is the same).
+func (c *Case) NullScopes() {
+	p := c.Files["root"]
+	b, err := os.ReadFile(p)
+	if err != nil {
+		return
+	}
+	i := 0
+	out := reEmptyScopes.ReplaceAllFunc(b, func(m []byte) []byte {
+		i++
+		if i%2 == 1 {
+			return []byte(strings.Replace(string(m), "[]", "null", 1))
+		}
+		return m
+	})
+	os.WriteFile(p, out, 0o644)
 }
